@@ -194,6 +194,9 @@ class Cfg:
     metadata_only: bool = False
     src_path: tuple = (1,)
     dst_path: tuple = (2,)
+    # a second remote entity in the SOURCE's MIB (nobody answers for it): {"id": 3, "idw": 2, <Cfg field overrides>}
+    alt_remote: dict | None = None
+    put_to_alt: bool = False      # the next put request addresses the alternative remote
 
 
 def remote_cfg(cfg: Cfg, entity_id: int, idw: int) -> RemoteEntityCfg:
@@ -420,9 +423,15 @@ class World:
         self.seq = SeqCountProvider(c.seqw * 8)
         for _ in range(c.seq_start):
             self.seq.get_and_increment()
-        self.src.h = SourceHandler(s_local, su, RemoteEntityCfgTable([s_remote]), TimerProv(c.check_ms), self.seq)
+        s_remotes = [s_remote]
+        if c.alt_remote:
+            import dataclasses
+            over = {k: v for k, v in c.alt_remote.items() if k not in ("id", "idw")}
+            s_remotes.append(remote_cfg(dataclasses.replace(c, **over), c.alt_remote["id"], c.alt_remote.get("idw", c.dst_idw)))
+        self.src.h = SourceHandler(s_local, su, RemoteEntityCfgTable(s_remotes), TimerProv(c.check_ms), self.seq)
         self.src.ops.append([9, c.src_id, c.src_idw] + [int(x) for x in c.ind] +
-                            self._enc_faults(sfh) + [c.check_ms, 1] + enc_rcfg(s_remote) + [c.seq_start, c.seqw * 8])
+                            self._enc_faults(sfh) + [c.check_ms, len(s_remotes)] + [x for r in s_remotes for x in enc_rcfg(r)] +
+                            [c.seq_start, c.seqw * 8])
         self.src.obs.append([])
         # dest entity B
         du = RecUser(self.dst_vfs, self.dst.log); du.pm = self.pm
@@ -448,19 +457,21 @@ class World:
     def make_put(self, data: bytes | None):
         """Create the source file (unless metadata only) and build the put request + its int coding."""
         c = self.cfg
+        dst_id, dst_idw = (c.alt_remote["id"], c.alt_remote.get("idw", c.dst_idw)) if (c.put_to_alt and c.alt_remote) else \
+            (c.dst_id, c.dst_idw)
         if c.metadata_only:
-            req = PutRequest(UnsignedByteField(c.dst_id, c.dst_idw), None, None,
+            req = PutRequest(UnsignedByteField(dst_id, dst_idw), None, None,
                              None if c.req_mode is None else TransmissionMode(c.req_mode), c.req_closure,
                              msgs_to_user=None if c.msgs is None else [codec.msg_from_code(m) for m in c.msgs])
             names = [0]
         else:
             self.src.fs_op([7, 1] + codec.enc_path(c.src_path) + [len(data)] + list(data))
-            req = PutRequest(UnsignedByteField(c.dst_id, c.dst_idw), self.pm.to_path(c.src_path),
+            req = PutRequest(UnsignedByteField(dst_id, dst_idw), self.pm.to_path(c.src_path),
                              self.pm.to_path(c.dst_path),
                              None if c.req_mode is None else TransmissionMode(c.req_mode), c.req_closure,
                              msgs_to_user=None if c.msgs is None else [codec.msg_from_code(m) for m in c.msgs])
             names = [1] + codec.enc_path(c.src_path) + codec.enc_path(c.dst_path)
-        ints = [c.dst_id, c.dst_idw, -1 if c.req_mode is None else c.req_mode,
+        ints = [dst_id, dst_idw, -1 if c.req_mode is None else c.req_mode,
                 -1 if c.req_closure is None else int(c.req_closure)] + names + \
                ([0, 0] if c.msgs is None else [1, len(c.msgs)] + list(c.msgs))
         return ints, req
